@@ -339,9 +339,14 @@ impl<Sink: TokenSink> Tokenizer<Sink> {
     // NB: this doesn't set the current input character.
     fn eat(&self, input: &BufferQueue, pat: &str, eq: fn(&u8, &u8) -> bool) -> Option<bool> {
         if self.ignore_lf.get() {
-            self.ignore_lf.set(false);
-            if self.peek(input) == Some('\n') {
-                self.discard_char(input);
+            // Only forget the pending CR once we have seen the character that follows it.
+            match self.peek(input) {
+                Some('\n') => {
+                    self.discard_char(input);
+                    self.ignore_lf.set(false);
+                },
+                Some(_) => self.ignore_lf.set(false),
+                None => (),
             }
         }
 
